@@ -6,7 +6,8 @@ P = "PcVerif.Props.C04."
 THEOREMS = [P + t for t in ["indent_pattern_pinned", "leaf_single_line", "splitWs_no_space", "vtt_line_roundtrip"]]
 
 WORDS = ["hello", "world", "Q&A", "a<b", "1>0", "&lt;", "&amp;", "&amp;lt;", "&#38;", "x", "it's", '"quoted"', "é", "中文", "\U0001F600", "100%", "a;b", "fox",
-         "<x>", "-->", "--", "]]>", "&", "<", ">", "two", "I", "{1}", "&copy;", "&nbsp;", "#", "="]
+         "<x>", "-->", "--", "]]>", "&", "<", ">", "two", "I", "{1}", "&copy;", "&nbsp;", "#", "=",
+         "École", "ÆON æon", "Ωω", "Ça", "Über", "Ñandú", "†‡", "Œuvre", "Šš", "ÞÐ"]
 
 
 def make(tier, seed):
@@ -38,6 +39,10 @@ def norm_text(text):
 # ---------------------------------------------------------------- spelling
 XML_NAMED = {"&": "&amp;", "<": "&lt;", ">": "&gt;", '"': "&quot;", "'": "&apos;"}
 HTML_NAMED = {"&": "&amp;", "<": "&lt;", ">": "&gt;", '"': "&quot;", "é": "&eacute;", " ": "&nbsp;", "©": "&copy;"}
+# every HTML 4 entity name, upper- and lower-case variants included (&Eacute; is not &eacute;)
+from html.entities import name2codepoint as _n2c
+for _name, _cp in sorted(_n2c.items()):
+    HTML_NAMED.setdefault(chr(_cp), "&%s;" % _name)
 
 
 def spell(text, rng, named, must=("&", "<"), numeric=True, p=0.15):
@@ -164,7 +169,8 @@ def doc_vtt(caps, rng, numeric=False):
                 elif r < 0.15:
                     txt = "<lang en>%s</lang>" % txt; tagged = True
                 elif r < 0.2:
-                    txt = "<00:00:%02d.250>%s" % (2 * i + 1, txt); tagged = True
+                    # karaoke timestamp tag, with hours (2 or more digits) or in the short mm:ss.ttt form
+                    txt = rng.choice(["<00:00:%02d.250>%s", "<00:%02d.250>%s", "<100:00:%02d.250>%s"]) % (2 * i + 1, txt); tagged = True
                 elif r < 0.25:
                     txt = "<ruby>%s<rt>rt</rt></ruby>" % txt; tagged = True; ws = ws + ["rt"] if False else ws
                     exp.append(" ".join(ws) + "rt"); segs.append(txt); continue
